@@ -433,8 +433,12 @@ every identifier without a separator to `<sanitized model>.<name>` (the root mod
 
 def isQual (s : String) : Bool := s.toList.contains '.'
 
+/-- `.name`: a leading separator addresses the root model (as in `<connect from=".name">`) -/
+def isRootRef (s : String) : Bool := s.toList.head? == some '.'
+
 /-- `m` = the sanitized model name (`""` for the root model) -/
-def resolveName (m s : String) : String := if isQual s || m = "" then s else m ++ "." ++ s
+def resolveName (m s : String) : String :=
+  if isRootRef s then String.ofList (s.toList.drop 1) else if isQual s || m = "" then s else m ++ "." ++ s
 
 mutual
 def makeAbs (m : String) : X → X
